@@ -2,6 +2,7 @@ package pac
 
 import (
 	"bytes"
+	"unicode/utf16"
 
 	"github.com/jcmturner/rpc/v2/mstypes"
 )
@@ -26,6 +27,14 @@ func (k *ClientInfo) Unmarshal(b []byte) (err error) {
 	if err != nil {
 		return
 	}
-	k.Name, err = r.UTF16String(int(k.NameLength))
+	u := make([]uint16, k.NameLength/2, k.NameLength/2)
+	for i := range u {
+		u[i], err = r.Uint16()
+		if err != nil {
+			return
+		}
+	}
+	// utf16.Decode combines surrogate pairs; converting the code units one by one would not.
+	k.Name = string(utf16.Decode(u))
 	return
 }
